@@ -32,6 +32,43 @@ inductive Const where
   | opaque (tag : String)
   deriving Repr, DecidableEq, Inhabited
 
+/-- Kind of an `op` node (see the header for the wire encoding as a string). -/
+inductive OpKind where
+  | bin (name : String)                 -- BinOp: operator class name ("Add", "Sub", …)
+  | un (name : String)                  -- UnaryOp: "USub", "UAdd", "Not", "Invert"
+  | boolAnd
+  | boolOr
+  | cmp (ops : List String)             -- Compare: operator class names, one per comparator
+  | ifExp
+  | slice (lo hi step : Bool)           -- Slice: which of lower/upper/step are present
+  | starred
+  deriving Repr, DecidableEq, Inhabited
+
+def unaryNames : List String := ["USub", "UAdd", "Not", "Invert"]
+
+def OpKind.toString : OpKind → String
+  | .bin n => n
+  | .un n => n
+  | .boolAnd => "And"
+  | .boolOr => "Or"
+  | .cmp ops => "Cmp:" ++ ",".intercalate ops
+  | .ifExp => "IfExp"
+  | .slice a b c => "Slice:" ++ (if a then "1" else "0") ++ (if b then "1" else "0") ++ (if c then "1" else "0")
+  | .starred => "Starred"
+
+def OpKind.ofString (s : String) : OpKind :=
+  if s = "And" then .boolAnd
+  else if s = "Or" then .boolOr
+  else if s = "IfExp" then .ifExp
+  else if s = "Starred" then .starred
+  else if s ∈ unaryNames then .un s
+  else if s.startsWith "Cmp:" then .cmp ((s.drop 4).toString.splitOn ",")
+  else if s.startsWith "Slice:" then
+    match (s.drop 6).toString.toList with
+    | [a, b, c] => .slice (a == '1') (b == '1') (c == '1')
+    | _ => .bin s
+  else .bin s
+
 inductive Expr where
   | name (id : String)
   | const (c : Const)
@@ -42,7 +79,7 @@ inductive Expr where
   | tuple (es : List Expr)
   | list (es : List Expr)
   | dict (ks : List Expr) (vs : List Expr)
-  | op (k : String) (args : List Expr)
+  | op (k : OpKind) (args : List Expr)
   | comp (kind : String) (elt : Expr) (target : Expr) (iter : Expr) (ifs : List Expr) (isAsync : Bool)
   deriving Repr, Inhabited
 
@@ -226,7 +263,7 @@ def Expr.toSExpr : Expr → SExpr
   | .tuple es => .list [.atom "tuple", .list (Expr.toSExprL es)]
   | .list es => .list [.atom "list", .list (Expr.toSExprL es)]
   | .dict ks vs => .list [.atom "dict", .list (Expr.toSExprL ks), .list (Expr.toSExprL vs)]
-  | .op k args => .list [.atom "op", .str k, .list (Expr.toSExprL args)]
+  | .op k args => .list [.atom "op", .str k.toString, .list (Expr.toSExprL args)]
   | .comp kind e t i ifs a =>
     .list [.atom "comp", .str kind, e.toSExpr, t.toSExpr, i.toSExpr, .list (Expr.toSExprL ifs),
            .atom (if a then "true" else "false")]
@@ -258,7 +295,7 @@ partial def Expr.ofSExpr : SExpr → Option Expr
   | .list [.atom "list", .list es] => do pure (.list (← Expr.ofSExprL es))
   | .list [.atom "dict", .list ks, .list vs] => do
     pure (.dict (← Expr.ofSExprL ks) (← Expr.ofSExprL vs))
-  | .list [.atom "op", .str k, .list args] => do pure (.op k (← Expr.ofSExprL args))
+  | .list [.atom "op", .str k, .list args] => do pure (.op (OpKind.ofString k) (← Expr.ofSExprL args))
   | .list [.atom "comp", .str kind, e, t, i, .list ifs, .atom a] => do
     pure (.comp kind (← Expr.ofSExpr e) (← Expr.ofSExpr t) (← Expr.ofSExpr i) (← Expr.ofSExprL ifs)
       (a == "true"))
